@@ -1,10 +1,11 @@
 import ClockBound.Properties.CodeTieSeqlock
+import ClockBound.Properties.CodeTieSeqlockHead
 import ClockBound.Properties.CodeTieHeader
 import ClockBound.Properties.CodeTieWriterNew
 open ClockBound
 #print axioms CodeTieSeqlock.write_eq
 #print axioms CodeTieSeqlock.write_record_eq
-#print axioms CodeTieSeqlock.write_ann
+#print axioms CodeTieSeqlock.ann_adequate
 #print axioms CodeTieSeqlock.write_not_stuck
 #print axioms CodeTieSeqlock.snapshot_eq
 #print axioms CodeTieSeqlock.snapshot_eq_typed
@@ -22,3 +23,6 @@ open ClockBound
 #print axioms CodeTieWriterNew.new_ops_script
 #print axioms WriterNewProg.script_split
 #print axioms WriterNewProg.newOps_script
+#print axioms CodeTieSeqlockHead.ann_default
+#print axioms CodeTieSeqlockHead.write_ann
+#print axioms CodeTieSeqlockHead.snapshot_eq
